@@ -209,6 +209,9 @@ func (f vhFileInfo) IsDir() bool        { return f.mode&fs.ModeDir != 0 }
 func (f vhFileInfo) Sys() any           { return nil }
 
 func vhOsStat(name string) (fs.FileInfo, error) {
+	if vStubOn("walk") {
+		return vhOsStatWalk(name)
+	}
 	if !vStubOn("rundir") {
 		return os.Stat(name)
 	}
